@@ -51,7 +51,7 @@ par g++ -fsanitize=address $BUILD/pools_ndebug.o $BUILD/mc.o $BUILD/dprint.o $BU
 parwait
 {
   echo "pools $BUILD/c10_pools"
-  echo "pools_ndebug $BUILD/c10_pools_ndebug --only cxx_pool,static_object_pool,pools_large,c_pool_pair"
+  echo "pools_ndebug $BUILD/c10_pools_ndebug --only cxx_pool,static_object_pool,pools_large,pools_huge,c_pool_pair"
   echo "heap_ndebug $BUILD/c10_heap_ndebug"
   echo "heap_assert $BUILD/c10_heap_assert"
 } > $BUILD/runs.txt
